@@ -19,7 +19,7 @@ RULE = ('each case = one endpoint (role x header_encoding x inbound validate/nor
         'layer (sys.monitoring LINE events over h2 / hpack / hyperframe): per case a corpus of plausible streams is evolved by byte '
         'mutation, frame insertion and splicing, inputs that reach new library lines are kept')
 MINIMA = {'receive_calls': 1000, 'raised_protocol_error': 50, 'returned_events': 200, 'greybox_executions': 10000,
-          'greybox_inputs_kept_for_new_coverage': 500, 'refused_local_calls_between_deliveries': 20000}
+          'greybox_inputs_kept_for_new_coverage': 500, 'refused_local_calls_between_deliveries': 20000, 'bursts_racing_a_local_reset': 2000}
 ASSUMPTIONS = ['inputs are those reachable by the structural generator plus byte mutation; not all byte strings']
 
 
@@ -222,8 +222,28 @@ def run_case(idx, rng, tier, rep):
             if r.ok:
                 pg.note_e_stream(nsid)
             nsid += 2
-        elif initiated and rng.random() < 0.05 and pg.open:
-            t.call('reset_stream', rng.choice(list(pg.open.keys())))
+        elif initiated and rng.random() < 0.08 and pg.open:
+            x = rng.choice(list(pg.open.keys()))
+            t.call('reset_stream', x)
+            if rng.random() < 0.6:
+                # frames that were already on their way when the stream was reset: anything may race it, promises of fresh,
+                # used and odd ids included
+                rep.count('bursts_racing_a_local_reset')
+                for _ in range(rng.choice([1, 2, 4])):
+                    k = rng.randrange(6)
+                    used = [y for y in pg.open if y % 2 == 0] or [2]
+                    if k == 0 and client:
+                        stream += wire.build_push_promise(x, rng.choice(used + [pg.next_sid, pg.next_sid + 2, 2, 3, 0]), pg._hdr('push'))
+                    elif k == 1:
+                        stream += wire.build_headers(x, pg._hdr('response' if client else 'trailers'), end_stream=rng.random() < 0.5)
+                    elif k == 2:
+                        stream += wire.build_data(x, b'r' * rng.choice([0, 1, 1000]), end_stream=rng.random() < 0.3, pad=rng.choice([None, 0, 9]))
+                    elif k == 3:
+                        stream += wire.build_window_update(x, rng.choice([0, 1, 2 ** 31 - 1]))
+                    elif k == 4:
+                        stream += wire.build_rst(x, rng.choice([0, 8]))
+                    else:
+                        stream += wire.build_priority(x, rng.choice([0, x, 1]), False, 3)
         elif initiated and rng.random() < 0.12:
             nsid = local_noise(t, rng, rep, pg, client, nsid)
         msg = pg.step()
